@@ -24,6 +24,16 @@ def close(a, b, tol=TOL):
     return abs(a - b) <= tol * max(1.0, abs(a), abs(b))
 
 
+def indep_in_bounds(model, x):
+    """Independent of Model.in_bounds: every named parameter inside its own [lower, upper], field by field."""
+    x = np.atleast_1d(x)
+    ok = np.ones(x.shape, dtype=bool)
+    for name in model.names:
+        lo, hi = model.bounds[name]
+        ok &= (x[name] >= lo) & (x[name] <= hi)
+    return ok
+
+
 def _lse(a, b):
     if a == -mp.inf:
         return b
@@ -106,7 +116,7 @@ def standard_result_facts(fs, obs):
     # faithful to the model
     obs.in_observer = True
     try:
-        inb = model.in_bounds(samples) if n else np.array([], bool)
+        inb = indep_in_bounds(model, samples) if n else np.array([], bool)
         lp = np.atleast_1d(model.log_prior(samples)) if n else np.array([])
         ll = np.atleast_1d(model.log_likelihood(samples)) if n else np.array([])
     finally:
